@@ -743,6 +743,24 @@ func emitTraces(scs []*rdScenario, events []kafka.VerifEvent) {
 	for _, sc := range scs {
 		byTopic[sc.topic()] = sc
 	}
+	// op `ftrace`: the RF.* events of the Reader front of every scenario (fetcher started with its version tag, message
+	// enqueued with its tag, message accepted / dropped by FetchMessage, SetOffset), in recorded order
+	front := map[string][]string{}
+	for _, e := range events {
+		if strings.HasPrefix(e.Kind, "RF.") && len(e.Args) >= 2 && len(front[e.Args[1]]) < 2000 {
+			front[e.Args[1]] = append(front[e.Args[1]], strings.TrimPrefix(e.Kind, "RF.")+":"+strings.Join(e.Args[2:], ":"))
+		}
+	}
+	for _, sc := range scs {
+		if evs := front[sc.topic()]; len(evs) > 0 {
+			tr := "-"
+			if sc.TruncIdx >= 0 {
+				tr = fmt.Sprintf("%d", sc.TruncN)
+			}
+			emit(fmt.Sprintf("ftrace sc=%s hwm=%d first=%d truncn=%s L=%s T=%s", sc.topic(), sc.Hwm, itemFirst(sc.Items[0]), tr,
+				layoutText(sc.Items), strings.Join(evs, ";")), "ok")
+		}
+	}
 	nth := map[string]int{}
 	for _, k := range order {
 		sc := byTopic[k.topic]
